@@ -84,6 +84,8 @@ func evalGoat(vm *goat.VM, src string) (bool, int64, string, string) {
 // evalGoatLocals evaluates the expression inside a function whose parameters are the operands (so
 // that they are locals and the code around the expression is what a function body gets): the value is
 // first assigned, then returned.
+var c05LocalsN int
+
 func evalGoatLocals(env map[string]int64, src string) (bool, int64, string, string) {
 	vm := goat.New(goat.WithStdout(&bytes.Buffer{}))
 	goat.VerifSetBudget(10000)
@@ -91,7 +93,14 @@ func evalGoatLocals(env map[string]int64, src string) (bool, int64, string, stri
 	var rets []goat.Value
 	var err error
 	finished, p := runWithWatchdogFast(func() {
-		_, err = vm.Eval(fstest.MapFS{}, "e.go", "func F(a, b, c, d, e int, p, q, r, s, t bool) any {\n\tx := "+src+"\n\treturn x\n}\n")
+		// every second time the expression comes after statements that spell every operator in its other roles (compound
+		// assignment, unary, in comparisons): grouping does not depend on what was parsed before in the same text
+		pre := ""
+		c05LocalsN++
+		if c05LocalsN%2 == 0 {
+			pre = "\tz := 1\n\tz <<= 1\n\tz >>= 1\n\tz += 1\n\tz -= 1\n\tz *= 1\n\tz /= 1\n\tz %= 7\n\tz &= 7\n\tz |= 0\n\tz ^= 0\n\tz++\n\tz--\n\tw := -z<<1 == -2 && ^z>>1 != 5 || !(z <= 0) && z >= 1\n\t_ = w\n"
+		}
+		_, err = vm.Eval(fstest.MapFS{}, "e.go", "func F(a, b, c, d, e int, p, q, r, s, t bool) any {\n"+pre+"\tx := "+src+"\n\treturn x\n}\n")
 		if err != nil {
 			return
 		}
